@@ -20,7 +20,21 @@
                      commit (c_fixed = false, finding K_clean_own_output, fixed) did not:
                      C17_refuted_K_clean_own_output.
    That rename(2) rebinds the destination in one step is the semantics of
-   [Rename] in the model, not a theorem. *)
+   [Rename] in the model, not a theorem.
+
+   What is NOT proved as the property text words it:
+   - "removes only superseded files": the current Clean removes every matching file that carries
+     the header of the same subcommand and is not an all-in-one file (C17_victims_are_the_selected_files),
+     whether or not the new all-in-one file provides what the old file provided.  [superseded] states
+     the text's notion; it holds for a repaired Clean (C17_repaired_cleanup_removes_only_superseded)
+     and, for the current one, exactly off the input class of the open finding K_clean_not_superseded
+     (C17_removes_only_superseded_partial, C17_refuted_K_clean_not_superseded).
+   - "never a hand-written file": proved for "a file whose first line is not a
+     Code-generated-by-shoot-<cmd> ... DO NOT EDIT. header of the same subcommand"; a hand-written
+     file that carries such a line cannot be told from a generated one.
+   - failing system calls: C17_no_temp_left and C17_plan_never_fails are about the run in which every
+     call succeeds (exit 0); C17_after_a_failing_call and C17_no_temp_left_unless_the_rename_failed
+     cover a run in which one call fails (I/O error) and main.go's recovery. *)
 From Coq Require Import String Ascii List Bool Arith Permutation.
 From Shoot Require Import Model.Fs Proofs.FsProofs Corr.FsCorr Proofs.FsCorrProofs.
 Import ListNotations.
@@ -121,12 +135,13 @@ Proof. exact plan_all_ok. Qed.
 Print Assumptions C17_plan_never_fails.
 
 (* ---- the all-in-one cleanup: which files are selected, stated on the
-   directory as it was before the run *)
-Theorem C17_victims_are_superseded_outputs : forall c init outs n,
+   directory as it was before the run.  NOTE: this characterises what the code removes; it
+   does not say the removed files are superseded (see below) *)
+Theorem C17_victims_are_the_selected_files : forall c init outs n,
   good c init outs -> ~ In n (names outs) ->
   (In n (victims c (exec init (write_ops (c_fd c) outs))) <-> victim_spec c init n = true).
 Proof. intros c init outs n G. exact (victims_char c init outs G n). Qed.
-Print Assumptions C17_victims_are_superseded_outputs.
+Print Assumptions C17_victims_are_the_selected_files.
 
 (* selected = the run is an all-in-one run, the name matches *.shoot<cmd>*.go, the
    first line starts with the header of the same subcommand and is not an
@@ -138,9 +153,11 @@ Theorem C17_selected_means : forall c init n, victim_spec c init n = true ->
 Proof. exact victim_spec_sound. Qed.
 Print Assumptions C17_selected_means.
 
-(* never a hand-written file: a file whose first line is not such a header keeps
-   its name, inode and bytes at every crash point (unless it sits on an output name) *)
-Theorem C17_hand_written_never_removed : forall c init outs p n b,
+(* "never a hand-written file", as far as it can be stated: a file whose first line is NOT the
+   header of the same subcommand keeps its name, inode and bytes at every crash point (unless it
+   sits on an output name).  Hand-written is taken to mean exactly that; the theorem is the
+   consequence for the whole run (every crash point), the criterion itself is the code's. *)
+Theorem C17_files_without_the_header_are_never_removed : forall c init outs p n b,
   good c init outs -> prefix_of p (plan c init outs) -> ~ In n (names outs) ->
   visible init n = Some b -> is_gen (c_cmd c) (first_line b) = false ->
   lookup n (dir (exec init p)) = lookup n (dir init) /\ visible (exec init p) n = Some b.
@@ -151,7 +168,26 @@ Proof.
   - exact (hand_written_not_selected c init n b V Hg).
   - split; [exact L|congruence].
 Qed.
-Print Assumptions C17_hand_written_never_removed.
+Print Assumptions C17_files_without_the_header_are_never_removed.
+
+(* ---- "removes only superseded files".  [superseded c b]: every type the file with content b
+   was generated for (c_tags, the receivers of its marker methods) is among the types this run
+   generated (c_covered).  A Clean that asks this question (c_supfix = true) removes only
+   superseded files: *)
+Theorem C17_repaired_cleanup_removes_only_superseded : forall c init n,
+  c_supfix c = true -> victim_spec c init n = true ->
+  exists b, visible init n = Some b /\ superseded c b = true.
+Proof. exact repaired_only_superseded. Qed.
+Print Assumptions C17_repaired_cleanup_removes_only_superseded.
+
+(* the current Clean (c_supfix = false) does so on the directory states in which every file it
+   selects is for types of this run, i.e. off the input class of K_clean_not_superseded; the
+   guard IS that class's complement, so this is a partial result, not the property *)
+Theorem C17_removes_only_superseded_partial : forall c init n,
+  all_selected_superseded c init -> victim_spec c init n = true ->
+  exists b, visible init n = Some b /\ superseded c b = true.
+Proof. exact only_superseded_partial. Qed.
+Print Assumptions C17_removes_only_superseded_partial.
 
 (* nor an all-in-one file, nor a file of another name pattern, nor anything when
    the run is not an all-in-one run *)
@@ -231,6 +267,30 @@ Theorem C17_crash_points : forall (l p : list op) k,
 Proof. intros l p k. split; [apply prefix_of_firstn|apply prefix_is_firstn]. Qed.
 Print Assumptions C17_crash_points.
 
+(* ---- one failing system call (I/O error).  [faulted plan k]: call number k of the plan fails;
+   main.go then stops (Fatal), after Close + Remove(temp) when the failing call is a write.
+   Everything said about crash points still holds in the state the run leaves: *)
+Theorem C17_after_a_failing_call : forall c init outs k,
+  good c init outs ->
+  let s := exec init (faulted (plan c init outs) k) in
+  (forall o, In o outs -> visible s (o_name o) = visible init (o_name o) \/ visible s (o_name o) = Some (new_bytes o)) /\
+  (forall n, ~ In n (names outs) -> ~ In n (temps outs) -> ~ In n (victims c (exec init (write_ops (c_fd c) outs))) ->
+     lookup n (dir s) = lookup n (dir init) /\ visible s n = visible init n) /\
+  (forall n, In n (victims c (exec init (write_ops (c_fd c) outs))) -> visible s n = visible init n \/ visible s n = None) /\
+  (forall j, j < next init -> data s j = data init j).
+Proof. intros c init outs k G. exact (faulted_invariants c init outs G k). Qed.
+Print Assumptions C17_after_a_failing_call.
+
+(* and no temporary file is left, unless the failing call is the rename itself (the code does
+   not remove the temporary then: C17_example_rename_failure_leaves_the_temp; recorded by the
+   C18 check as K_rename_fail_after_write).  The result of Close is ignored by the code. *)
+Theorem C17_no_temp_left_unless_the_rename_failed : forall c init outs k x t,
+  good c init outs ->
+  nth_error (plan c init outs) k = Some x -> can_fail x = true -> is_rename x = false ->
+  In t (temps outs) -> lookup t (dir (exec init (faulted (plan c init outs) k))) = None.
+Proof. intros c init outs k x t G. exact (faulted_no_temp_left c init outs G k x t). Qed.
+Print Assumptions C17_no_temp_left_unless_the_rename_failed.
+
 (* ---- main ranges over a Go map: the order in which the outputs are written does
    not influence what the directory shows after the run *)
 Theorem C17_output_order_is_irrelevant : forall c init outs outs',
@@ -290,7 +350,7 @@ Definition ex_out : output :=
   {| o_name := "a.shootnew.go"; o_tmp := ".a.shootnew.go_4242";
      o_chunks := [hdr "-type=*" ++ ex_nl; "new"] |}.
 Definition ex_cfg : cfg :=
-  {| c_cmd := "new"; c_clean := true; c_dirdot := true; c_fixed := false; c_genfile := "a.shootnew.go"; c_fd := 3 |}.
+  {| c_cmd := "new"; c_clean := true; c_dirdot := true; c_fixed := false; c_supfix := false; c_tags := fun _ => []; c_covered := []; c_genfile := "a.shootnew.go"; c_fd := 3 |}.
 
 Example C17_example_good : good ex_cfg ex_init [ex_out].
 Proof.
@@ -360,11 +420,31 @@ Proof.
   - vm_compute. repeat split.
 Qed.
 
+(* the example run with a failing second write (no space left): Close, Remove(temp); the old file,
+   the hard link and the stale file are as before, no temporary is left *)
+Example C17_example_write_failure :
+  nth_error (plan ex_cfg ex_init [ex_out]) 2 = Some (Write 3 "new") /\
+  faulted (plan ex_cfg ex_init [ex_out]) 2 =
+    [CreateTemp 3 ".a.shootnew.go_4242"; Write 3 (hdr "-type=*" ++ ex_nl); Close 3; Unlink ".a.shootnew.go_4242"] /\
+  let s := exec ex_init (faulted (plan ex_cfg ex_init [ex_out]) 2) in
+  visible s "a.shootnew.go" = visible ex_init "a.shootnew.go" /\
+  visible s ".a.shootnew.go_4242" = None /\
+  visible s "a.shootnew.foo.go" = visible ex_init "a.shootnew.foo.go".
+Proof. vm_compute. repeat split. Qed.
+
+(* ... and with a failing rename: the temporary stays (the exception in the theorem is real) *)
+Example C17_example_rename_failure_leaves_the_temp :
+  nth_error (plan ex_cfg ex_init [ex_out]) 4 = Some (Rename ".a.shootnew.go_4242" "a.shootnew.go") /\
+  let s := exec ex_init (faulted (plan ex_cfg ex_init [ex_out]) 4) in
+  visible s "a.shootnew.go" = visible ex_init "a.shootnew.go" /\
+  visible s ".a.shootnew.go_4242" = Some (hdr "-type=*" ++ ex_nl ++ "new").
+Proof. vm_compute. repeat split. Qed.
+
 (* two outputs in one run (-type=A,B): separate files, Clean inactive *)
 Definition ex_outs2 : list output :=
   [ {| o_name := "a.shootnew.foo.go"; o_tmp := ".a.shootnew.foo.go_17"; o_chunks := [hdr "-type=Foo,Bar" ++ ex_nl ++ "foo"] |};
     {| o_name := "b.shootnew.bar.go"; o_tmp := ".b.shootnew.bar.go_18"; o_chunks := [hdr "-type=Foo,Bar" ++ ex_nl ++ "bar"] |} ].
-Definition ex_cfg2 : cfg := {| c_cmd := "new"; c_clean := false; c_dirdot := false; c_fixed := false; c_genfile := ""; c_fd := 3 |}.
+Definition ex_cfg2 : cfg := {| c_cmd := "new"; c_clean := false; c_dirdot := false; c_fixed := false; c_supfix := false; c_tags := fun _ => []; c_covered := []; c_genfile := ""; c_fd := 3 |}.
 Example C17_example_good2 : good ex_cfg2 ex_init ex_outs2.
 Proof.
   pose proof C17_example_good as [H1 H2 _ _].
@@ -384,7 +464,7 @@ Definition kf_out : output :=
   {| o_name := "a.shootnew.go"; o_tmp := ".a.shootnew.go_1";
      o_chunks := ["// Code generated by ""shoot new -type * ./p""; DO NOT EDIT. (v0.7.0)" ++ ex_nl] |}.
 Definition kf_cfg : cfg :=
-  {| c_cmd := "new"; c_clean := true; c_dirdot := false; c_fixed := false; c_genfile := "a.shootnew.go"; c_fd := 3 |}.
+  {| c_cmd := "new"; c_clean := true; c_dirdot := false; c_fixed := false; c_supfix := false; c_tags := fun _ => []; c_covered := []; c_genfile := "a.shootnew.go"; c_fd := 3 |}.
 Definition kf_init : fs := mk_init [("a.go", 0, "package p")].
 
 Theorem C17_refuted_K_clean_own_output :
@@ -407,7 +487,7 @@ Qed.
 Print Assumptions C17_refuted_K_clean_own_output.
 
 Example C17_current_code_keeps_the_witness_output :
-  let c := {| c_cmd := "new"; c_clean := true; c_dirdot := false; c_fixed := true;
+  let c := {| c_cmd := "new"; c_clean := true; c_dirdot := false; c_fixed := true; c_supfix := false; c_tags := fun _ => []; c_covered := [];
               c_genfile := "a.shootnew.go"; c_fd := 3 |} in
   good c kf_init [kf_out] /\
   visible (exec kf_init (plan c kf_init [kf_out])) "a.shootnew.go" = Some (new_bytes kf_out).
@@ -421,3 +501,46 @@ Proof.
     + intros o [<-|[]]. split; [reflexivity|]. exists "1". repeat split. discriminate.
     + intros t [<-|[]]. reflexivity.
 Qed.
+
+(* ---- open finding K_clean_not_superseded: `shoot map -type=OrderPO -to=Order` wrote
+   a.shootmap.orderpo.go; a later `shoot map -type=*` run generates Item only (the package has
+   no destination type named OrderPO), yet removes a.shootmap.orderpo.go.  All guards hold, the
+   removed file is selected by the current Clean and is not superseded. *)
+Definition ns_hdr (rest : string) : string := "// Code generated by ""shoot map " ++ rest ++ """; DO NOT EDIT. (v0.7.0)".
+Definition ns_old : bytes := ns_hdr "-path=../domain -type=OrderPO -to=Order" ++ ex_nl ++ "orderpo".
+Definition ns_new : bytes := ns_hdr "-path=../domain -type=*" ++ ex_nl ++ "item".
+Definition ns_cfg : cfg :=
+  {| c_cmd := "map"; c_clean := true; c_dirdot := true; c_fixed := true; c_supfix := false;
+     c_tags := fun b => if String.eqb b ns_old then ["OrderPO"] else if String.eqb b ns_new then ["Item"] else [];
+     c_covered := ["Item"]; c_genfile := "a.shootmap.go"; c_fd := 3 |}.
+Definition ns_init : fs := mk_init [("a.go", 0, "package q"); ("a.shootmap.orderpo.go", 1, ns_old)].
+Definition ns_out : output :=
+  {| o_name := "a.shootmap.go"; o_tmp := ".a.shootmap.go_5"; o_chunks := [ns_new] |}.
+
+Theorem C17_refuted_K_clean_not_superseded :
+  exists c init outs n b,
+    c_supfix c = false /\ good c init outs /\
+    visible init n = Some b /\ superseded c b = false /\
+    In n (victims c (exec init (write_ops (c_fd c) outs))) /\
+    visible (exec init (plan c init outs)) n = None.
+Proof.
+  exists ns_cfg, ns_init, [ns_out], "a.shootmap.orderpo.go", ns_old.
+  split; [reflexivity|]. split.
+  - destruct (mk_init_wf [("a.go", 0, "package q"); ("a.shootmap.orderpo.go", 1, ns_old)]) as (H1 & H2 & _).
+    apply current_code_good; auto.
+    + intros _ o [<-|[]]. reflexivity.
+    + apply (shaped_okouts "map").
+      * repeat constructor. intros [].
+      * intros o [<-|[]]. split; [reflexivity|]. exists "5". repeat split. discriminate.
+      * intros t [<-|[]]. reflexivity.
+  - split; [reflexivity|]. split; [reflexivity|]. split; [vm_compute; now left|reflexivity].
+Qed.
+Print Assumptions C17_refuted_K_clean_not_superseded.
+
+(* the same directory with a Clean that asks whether the file is superseded: it is kept *)
+Example C17_repaired_cleanup_keeps_the_witness_file :
+  let c := {| c_cmd := "map"; c_clean := true; c_dirdot := true; c_fixed := true; c_supfix := true;
+              c_tags := c_tags ns_cfg; c_covered := ["Item"]; c_genfile := "a.shootmap.go"; c_fd := 3 |} in
+  visible (exec ns_init (plan c ns_init [ns_out])) "a.shootmap.orderpo.go" = Some ns_old /\
+  visible (exec ns_init (plan c ns_init [ns_out])) "a.shootmap.go" = Some ns_new.
+Proof. vm_compute. split; reflexivity. Qed.
